@@ -104,7 +104,14 @@ pub fn worker<E: Engine>(prop: &str, seed: u64, start: u64, stride: u64, total: 
         if s.stats.faults.is_empty() {
             out.fault_free_runs += 1;
         }
-        out.stats.merge(&s.stats);
+        // Per-run digest: everything observable about the run, mixed with its index.
+        let mut st = s.stats.clone();
+        let mut d = crate::sim::fnv(st.digest, &i.to_le_bytes());
+        d = crate::sim::fnv(d, serde_json::to_string(&s.violations).unwrap().as_bytes());
+        d = crate::sim::fnv(d, serde_json::to_string(&(&st.faults, &st.probes, &st.ops, st.steps, st.messages, st.bytes, st.server_frames, st.client_frames)).unwrap().as_bytes());
+        d = crate::sim::fnv(d, format!("{:?}", st.sigs).as_bytes());
+        st.digest = d;
+        out.stats.merge(&st);
         if let Some(e) = &s.harness_error {
             if out.harness_errors.len() < 5 {
                 out.harness_errors.push((i, e.clone()));
@@ -430,4 +437,20 @@ pub fn merge_counts(a: &mut BTreeMap<String, u64>, b: &BTreeMap<String, u64>) {
     for (k, v) in b {
         *a.entry(k.clone()).or_insert(0) += v;
     }
+}
+
+/// Determinism self-check: the same batch with 1, 5 and 16 worker processes must produce the same digest.
+pub fn determinism<E: Engine>(prop: &str, total: u64) -> bool {
+    let seed = seed_from_env();
+    let mut digests = vec![];
+    for w in ["1", "5", "16"] {
+        // SAFETY: single-threaded at this point.
+        unsafe { std::env::set_var("VERIF_WORKERS", w) };
+        let b = run_batch::<E>(prop, seed, total);
+        digests.push((w, b.out.stats.digest, b.out.evals, b.out.violations.len()));
+    }
+    unsafe { std::env::remove_var("VERIF_WORKERS") };
+    let ok = digests.iter().all(|d| d.1 == digests[0].1 && d.2 == digests[0].2);
+    println!("{prop} [{}] {total} runs: {} {:?}", E::FAMILY, if ok { "deterministic" } else { "DIVERGED" }, digests);
+    ok
 }
